@@ -1013,4 +1013,70 @@ example :
 
 end GlueExamples
 
+/-! ## Masters restricted by `add_master(region=…)` (remapper in front of the port) -/
+section RemapThms
+
+/-- The bus behind remapped ports is the bus of the routing theorems fed with the remapped addresses: everything
+    proved above about `SocBus` (routing, answers, ownership, terminations) holds for `SocRBus` with
+    `c.mapIn x` in place of `x`; ports without a remapper are untouched. -/
+theorem socr_out_eq (c : SocRCfg) (s : SocState) (x : BusIn) :
+    (SocRBus.machine c).out s x = SocBus.out c.soc s (c.mapIn x) ∧
+    (SocRBus.machine c).next s x = SocBus.next c.soc s (c.mapIn x) ∧
+    (∀ i, (c.remaps[i]? = none ∨ c.remaps[i]? = some none) → (c.mapIn x).ms i = x.ms i) := by
+  refine ⟨rfl, rfl, ?_⟩
+  intro i h
+  simp [SocRCfg.mapIn, portAdr_none c i _ h]
+
+/-- **A restricted master stays inside its region.**  Master `i` added with `region=SoCRegion(origin, 2^k)`
+    (origin aligned on the size, region inside the address space, at least one bus word): in every state and for
+    every address it drives, a slave that is presented its cycle sees an address whose byte address lies in
+    `[origin, origin + 2^k)` and which that slave's own decoder matches. -/
+theorem soc_remapped_master_confined (c : SocRCfg) (i origin k : Nat)
+    (hr : c.remaps[i]? = some (some (origin, 2 ^ k))) (hk : c.sh ≤ k) (hal : origin % 2 ^ k = 0)
+    (hfit : origin + 2 ^ k ≤ 2 ^ c.soc.aw)
+    (hcov : c.soc.topology = .p2p → ∀ a, c.soc.dec 0 a = true)
+    (s : SocState) (hwf : SocBus.WF c.soc s) (x : BusIn) (hn : 0 < c.soc.n) (j : Nat) (hj : j < c.soc.m)
+    (hown : SocBus.owner s j = i) :
+    let o := (SocRBus.machine c).out s x
+    (o.toS j).cyc = true →
+      c.soc.dec j (o.toS j).adr = true ∧
+      origin ≤ (o.toS j).adr * 2 ^ c.sh ∧ (o.toS j).adr * 2 ^ c.sh < origin + 2 ^ k := by
+  intro o hc
+  have hroute := soc_route_partial c.soc hcov s hwf (c.mapIn x) hn j hj
+  have hcyc : (o.toS j).cyc = (((c.mapIn x).ms (SocBus.owner s j)).cyc &&
+      c.soc.dec j ((c.mapIn x).ms (SocBus.owner s j)).adr) := hroute.1
+  have hadr : (o.toS j).adr = ((c.mapIn x).ms (SocBus.owner s j)).adr := hroute.2.2.2.1
+  rw [hc] at hcyc
+  have hdec := (Bool.and_eq_true _ _ ▸ hcyc.symm).2
+  have hport : ((c.mapIn x).ms (SocBus.owner s j)).adr = remapAdr origin (2 ^ k) c.sh c.soc.aw (x.ms i).adr := by
+    rw [hown]
+    simp [SocRCfg.mapIn, SocRCfg.portAdr, hr]
+  rw [hadr]
+  refine ⟨hdec, ?_⟩
+  rw [hport]
+  exact remapAdr_confined origin k c.sh c.soc.aw _ hk hal hfit
+
+end RemapThms
+
+section RemapExamples
+
+/-- Three slaves `[0,+0x3000)` `[0x4000,+0x1000)` `[0x8000,+0x1800)`; master 0 restricted to `[0x4000, +0x1000)`,
+    master 1 to the rounding gap `[0x3000, +0x1000)` of slave 0, master 2 unrestricted. -/
+def socR : SocRCfg :=
+  { soc := { n := 3, regions := [(0, 0x3000), (0x4000, 0x1000), (0x8000, 0x1800)], kind := .shared, reg := false,
+             timeout := none, dw := 32, aw := 32 },
+    remaps := [some (0x4000, 0x1000), some (0x3000, 0x1000), none] }
+
+/-- Non-vacuity: whatever master 0 drives (here word 0x2001, a byte address in slave 2's region) reaches slave 1 at
+    word 0x1001; master 1's 0x2001 lands in slave 0's gap at 0xc01; the unrestricted master 2 reaches slave 2. -/
+example :
+    let x : BusIn := { ms := fun _ => { cyc := true, stb := true, adr := 0x2001 }, ss := fun _ => {} }
+    let seen (g : Nat) := (SocRBus.machine socR).out (.sh { Shared.init socR.soc.sh with grant := g }) x
+    (List.range 3).map (fun j => (((seen 0).toS j).cyc, ((seen 0).toS j).adr)) = [(false, 0x1001), (true, 0x1001), (false, 0x1001)] ∧
+    (List.range 3).map (fun j => ((seen 1).toS j).cyc) = [true, false, false] ∧ ((seen 1).toS 0).adr = 0xc01 ∧
+    (List.range 3).map (fun j => ((seen 2).toS j).cyc) = [false, false, true] ∧ ((seen 2).toS 2).adr = 0x2001 := by
+  decide +kernel
+
+end RemapExamples
+
 end Litex.C06
